@@ -598,12 +598,14 @@ def c17_oracle(case, impl):
 class C17(Prop):
     id = "C17"
     translators = ["gen_master_tables"]
-    proof_targets = ["Master/BackoffProofs.vo", "Master/AssocProofs.vo", "Master/SchedProofs.vo", "Master/TablesAgree.vo"]
+    proof_targets = ["Master/BackoffProofs.vo", "Master/AssocProofs.vo", "Master/SchedProofs.vo", "Master/TablesAgree.vo",
+                     "Master/MSFullProofs.vo"]
     property_file = "Properties/C17.v"
     theorems = []
     modelled = ("modelled by hand: master/association.rs (AutoTaskState, TaskStates, Association, AssociationMap), "
                 "master/poll.rs, master/task.rs (run loop as an event-driven step function), master/tasks/{auto,time}.rs, "
-                "app/retry.rs (Master/{Backoff,Assoc,Sched}.v); received fragments abstracted to header fields, "
+                "app/retry.rs (Master/{Backoff,Assoc,Sched}.v); received fragments abstracted to header fields (read by the "
+                "engine's glue in the first pass, computed in Coq from the octets - Master/MSFull.v - in the second), "
                 "xxh64 digest = object bytes, Instant overflow not modelled")
     rule = ("msched scripts: 1..3 associations with random automatic-task configuration and retry strategy; "
             "responses to the outstanding request are derived from the model state (right source and sequence) and "
@@ -632,6 +634,28 @@ class C17(Prop):
 
     def canon(self, lines, side):
         return [l for l in lines if not l.startswith("wakes ")]
+
+    # ---- second model pass: engine `msfull` (coq/Master/MSFull.v) ----
+    # Engine `msched` turns a received fragment into the record the scheduling model consumes (header fields, whether
+    # the objects parse, number of measurement values, delay of a lone g52v2) with a hand-written three-form object
+    # grammar in its OCaml glue.  Engine `msfull` runs the same model on the same script with that record computed in
+    # Coq from the octets (MParse + App/Grammar.v + the conversion model of C10): no parser in the glue.
+    extra_name = "msfull"
+    extra_what = ("scheduling model with the received fragment computed from the octets in Coq (`msfull`: header, "
+                  "Grammar verdict, number of delivered values via the C10 conversion model, g52v2 delay), no parser in the glue")
+
+    def extra_model_script(self, case, impl):
+        """None: another engine, a back-off script (no fragment is received), the implementation panicked / stalled"""
+        lines = [l for l in case.script.split("\n") if l.strip()]
+        head = lines[0].split()
+        if len(head) < 3 or head[2] != "msched" or case.meta.get("kind") == "backoff" or case.meta.get("impl_only"):
+            return None
+        if any(l.startswith("panic") or l.startswith("harness-died") or l == "missing" or l == "stall" for l in impl):
+            return None
+        return "\n".join([" ".join(head[:2] + ["msfull"] + head[3:])] + lines[1:])
+
+    def extra_canon(self, lines, side):
+        return self.canon(lines, side)
 
     def nontrivial(self, case, impl):
         return sum(1 for l in impl if " start " in l) > 1 or any(l.startswith("delays") for l in impl)
